@@ -84,7 +84,7 @@ func init() {
 			"the index form proved here (reports strictly before the chosen index hold less than half, up to and including it at least half, in non-decreasing value order) implies the set form of the statement; that implication is an argument on paper, not machine-checked",
 		},
 		NotDecided: []string{
-			"dispatch in SetAggregatedReport (median iff the first report's recorded method is weighted-median): index iterators are outside the modelled library surface",
+			"dispatch in SetAggregatedReport is decided as call preconditions (WeightedMedian is called exactly for rounds whose first report records the method weighted-median, WeightedMode for all others: SetAggregatedReport#call(WeightedMedian/WeightedMode).requires.*); that the recorded method is the data spec's method is SetValue's side (C07)",
 			"independence of the chosen median value from arrival order as a theorem over multisets (follows from sortedness + half conditions; not machine-checked)",
 		},
 	})
